@@ -59,6 +59,10 @@ def replay(rec):
             quiet(p1.stage.set_value, p1.p[0], pval(final['stages'][0]['params'][0], final['stages'][0]['method']['N']))
             quiet(declare_constraint, p1, final['stages'][0]['cons'][-1], p1.stage)
             before = declared_counts(B)
+        if md.get('stagefirst'):
+            # the first transcribing call is made on a sub-stage, not on the OCP
+            p_last = B.parts[-1]
+            quiet(p_last.stage.sample, p_last.x[0], grid='control')
         o = observe(B)
         after = declared_counts(B)
     except Exception as e:
